@@ -114,10 +114,10 @@ const WORDS: &[&str] = &["hello", "world", "x", "foo", "1", "a.b", "k=v", "Z9"];
 const TEXT_PIECES: &[&str] = &[
     "hello", "world", "x", " ", "line", "  ", "\t", "#", "//", "-", "foo bar", "end", "*/", "-->", "é", "語",
     "TXTPP#", "TXTPP#runx", "TXTPP", "-TXTPP#hello", "TXTPP#run", "TXTPP#include", "TXTPP# ", "TXTPP#tag", "TXTPP#write",
-    "a.txt", "txtpp#run",
+    "a.txt", "txtpp#run", "ABC", "TAGT1", "BCAB",
 ];
 const N_PLAIN_PIECES: usize = 16;
-const TAG_NAMES: &[&str] = &["TAG", "T1", "X_X", "<v>", "NAME", "T2", "TAGGED", "T"];
+const TAG_NAMES: &[&str] = &["TAG", "T1", "X_X", "<v>", "NAME", "T2", "TAGGED", "T", "AB", "BC", "GT"];
 const DIRECTIVE_NAMES: &[&str] = &["", "include", "after", "run", "temp", "tag", "write"];
 
 #[derive(Debug, Clone)]
@@ -522,13 +522,25 @@ fn gen_source(g: &mut Gen, plans: &mut Vec<SrcPlan>, me: usize) -> String {
             } else {
                 None
             };
-            let mut t = g.text_line(use_tag.as_deref());
+            // sometimes make a second stored tag overlap the one being used ("AB" + "BC" in
+            // "ABC"): the leftmost is substituted, the overlapped one stays stored
+            let mut overlapped: Option<String> = None;
+            let mut insert = use_tag.clone();
+            if let Some(u) = &use_tag {
+                if let Some(o) = stored.iter().find(|o| o.len() > 1 && o.chars().next() == u.chars().last()).cloned() {
+                    if g.c.chance(1, 2) {
+                        insert = Some(format!("{u}{}", &o[o.chars().next().unwrap().len_utf8()..]));
+                        overlapped = Some(o);
+                    }
+                }
+            }
+            let mut t = g.text_line(insert.as_deref());
             if g.c.chance(1, 6) {
                 let ind = *g.c.pick(INDENTS);
                 t = format!("{ind}{t}");
             }
             // a text line may accidentally contain other stored tags: they are then consumed too
-            stored.retain(|s| !t.contains(s.as_str()));
+            stored.retain(|s| !t.contains(s.as_str()) || Some(s) == overlapped.as_ref());
             emit(g, &mut lines, &mut open, t, false);
             continue;
         }
